@@ -68,7 +68,23 @@ def run(ctx, rep):
     rd = Q.ReachingDefs(g)
     appends = [n for n in g.live if n.kind == "stmt" and n.ast is not None and any(
         isinstance(c.func, ast.Attribute) and c.func.attr == "append" for c in A.calls(n.ast))]
-    rep.floor("R09.2", "payload append sites in vinegar.dump", len(appends), 4)
+    extends = [n for n in g.live if n.kind == "stmt" and n.ast is not None and any(
+        isinstance(c.func, ast.Attribute) and c.func.attr in ("extend", "insert", "__iadd__") for c in A.calls(n.ast))]
+    extends += [n for n in g.live if n.kind == "stmt" and isinstance(n.ast, ast.AugAssign) and isinstance(n.ast.op, ast.Add)]
+    rep.floor("R09.2", "payload append sites in vinegar.dump", len(appends) + len(extends), 3)
+    for n in extends:
+        c = [c for c in A.calls(n.ast) if isinstance(c.func, ast.Attribute) and c.func.attr == "extend"]
+        ok = False
+        if c and c[0].args and isinstance(c[0].args[0], (ast.GeneratorExp, ast.ListComp)):
+            ge = c[0].args[0]
+            v = A.src(ge.generators[0].target)
+            e = ge.elt
+            ok = isinstance(e, ast.IfExp) and A.src(e.test) == "brine.dumpable(%s)" % v and A.src(e.body) == v and \
+                A.src(e.orelse) == "repr(%s)" % v
+        rep.ob("R09.2", "vinegar.dump: `%s` normalises the values one by one" % A.norm(n.ast)[:60], ok,
+               "each element is sent as itself if dumpable, else as its repr" if ok else
+               "values are added in bulk: the dumpable-or-repr decision is not taken per element, so immutable arguments next "
+               "to a mutable one are replaced by their repr (or a non-dumpable one slips through)", ctx.loc(n))
 
     def encodable(node, e):
         """is expression e, evaluated at CFG node `node`, guaranteed brine-dumpable?"""
@@ -121,6 +137,15 @@ def run(ctx, rep):
     for n in appends:
         for c in A.calls(n.ast):
             if isinstance(c.func, ast.Attribute) and c.func.attr == "append" and c.args:
+                e0 = c.args[0]
+                if isinstance(e0, ast.Call) and A.call_name(e0) == "repr" and len(e0.args) == 1 and isinstance(e0.args[0], ast.Name):
+                    v = e0.args[0].id
+                    conds = {A.src(t.ast): pol for t, pol in Q.dominating_conditions(g, n, dom)}
+                    okr = conds.get("brine.dumpable(%s)" % v) is False
+                    rep.ob("R09.2", "vinegar.dump: `%s` replaces exactly the non-dumpable value by its repr" % A.norm(c)[:50], okr,
+                           "under `not brine.dumpable(%s)`" % v if okr else
+                           "the repr() replacement of `%s` is not decided by brine.dumpable(%s) of that very value: immutable "
+                           "arguments lose their value (arrive as text)" % (v, v), ctx.loc(n))
                 ok, why = encodable(n, c.args[0])
                 rep.ob("R09.2", "vinegar.dump: `%s` transmits only encodable values" % A.norm(c)[:60], ok,
                        why if ok else "%s: the exception reply itself can then fail to encode and the requester gets no answer" % why,
